@@ -22,9 +22,9 @@ pub mod sched;
 /// Dispatches a subcommand. Exit code 0 = shard ran to completion (verdicts are in the report).
 pub fn run(args: &Args) -> i32 {
     match args.prop.as_str() {
-        "c01" => sched::run(args, "c01", "C01", 2400, 60_000, 6),
-        "c02" => sched::run(args, "c02", "C02", 2400, 60_000, 8),
-        "c03" => sched::run(args, "c03", "C03", 2400, 60_000, 8),
+        "c01" => sched::run(args, "c01", "C01", 19_200, 240_000, 6),
+        "c02" => sched::run(args, "c02", "C02", 38_400, 400_000, 8),
+        "c03" => sched::run(args, "c03", "C03", 38_400, 400_000, 8),
         "c04" => c04::run(args),
         "c08" => c08::run(args),
         "c09" => c09::run(args),
@@ -41,9 +41,9 @@ pub fn run(args: &Args) -> i32 {
         "c19" => c19::run(args),
         "c20" => c20::run(args),
         "c05" => c05::run(args),
-        "c07" => sched::run(args, "c07", "C07", 1600, 40_000, 5),
-        "c10" => sched::run(args, "c10", "C10", 6000, 200_000, 0),
-        "c12" => sched::run(args, "c12", "C12", 1600, 40_000, 4),
+        "c07" => sched::run(args, "c07", "C07", 25_600, 300_000, 5),
+        "c10" => sched::run(args, "c10", "C10", 120_000, 1_500_000, 0),
+        "c12" => sched::run(args, "c12", "C12", 25_600, 300_000, 4),
         other => {
             eprintln!("unknown subcommand {}", other);
             64
